@@ -190,16 +190,25 @@ def step (_ : Unit) (op : List String) (impl : String) : LineOut Unit :=
               else none
             | .user _ _ p | .query _ _ p =>
               if p.isEmpty then (if implStdin.isEmpty then none else some "input for an empty payload")
-              else if implStdin != p && implStdin != p ++ [NL] then some "input is not the payload (plus a newline)"
               else if implStdin.getLast? != some NL then some "input does not end with a newline"
+              else if implStdin != (if p.getLast? == some NL then p else p ++ [NL]) then
+                some "input is not the payload with a newline appended exactly when it lacks one"
               else none
           match stdinBad with
           | some m => some ("stdin-format", m)
           | none =>
             let envB := ((get "env=").bind bytesOfHex?).getD []
             let names := (splitOn 0 envB).map fun kv => (splitOn EQ kv).head?.getD []
+            let simple (k : Bytes) : Bool := k.all fun c => (97 ≤ c && c ≤ 122) || (65 ≤ c && c ≤ 90) || (48 ≤ c && c ≤ 57) || c == 95
+            let upper (k : Bytes) : Bytes := k.map fun c => if 97 ≤ c && c ≤ 122 then c - 32 else c
+            let entriesB := splitOn 0 envB
             if (get "env=") != some "*" && names.any (fun n => !okName n) then
               some ("env-name", "a SERF_* variable name has a character outside [A-Z0-9_]")
+            else if (get "env=") != some "*" && selfTags.any (fun p => simple p.1 && !p.2.contains 0 &&
+                !entriesB.contains (b "SERF_TAG_" ++ upper p.1 ++ EQ :: p.2)) then
+              some ("env-tag", "a tag with a plain ASCII name is not visible as SERF_TAG_<UPPER-CASED NAME>=<value>")
+            else if !entriesB.contains (b "SERF_EVENT=" ++ event.kind.str) || !entriesB.contains (b "SERF_SELF_NAME=" ++ selfName) then
+              some ("env-fixed", "SERF_EVENT / SERF_SELF_NAME missing or wrong")
             else match get "resp=" with
               | some "none" => none
               | some "toolarge" => if isQ then none else some ("resp-unexpected", "response attempted for a non-query")
@@ -207,7 +216,7 @@ def step (_ : Unit) (op : List String) (impl : String) : LineOut Unit :=
                 match bytesOfHex? h with
                 | some p =>
                   if !isQ || ex != 0 || out.isEmpty then some ("resp-unexpected", "response sent although not a successful query run with output")
-                  else if p.length > 8192 || !(p.isSuffixOf out) then some ("resp-not-last-8k", "the response is not the last (at most 8192) bytes of the output")
+                  else if p.length != min out.length 8192 || !(p.isSuffixOf out) then some ("resp-not-last-8k", "the response is not the last 8192 bytes of the output (the whole output when shorter)")
                   else none
                 | none => some ("malformed", impl)
               | none => some ("malformed", impl)
